@@ -6,6 +6,7 @@ import (
 	sdkmath "cosmossdk.io/math"
 
 	bettypes "github.com/sge-network/sge/x/bet/types"
+	housetypes "github.com/sge-network/sge/x/house/types"
 	markettypes "github.com/sge-network/sge/x/market/types"
 	obtypes "github.com/sge-network/sge/x/orderbook/types"
 )
@@ -16,13 +17,14 @@ type coreSeenT struct {
 	reported map[string]bool
 	resolved map[string]string // market uid -> frozen "status|winners|ts"
 	betSeen  map[string]bool
+	request  map[string]sdkmath.Int // bet uid -> requested stake (amount on the message minus the bet fee)
 }
 
 var coreSeen coreSeenT
 
 func coreReset(h int) {
 	if coreSeen.h != h || coreSeen.reported == nil {
-		coreSeen = coreSeenT{h: h, reported: map[string]bool{}, resolved: map[string]string{}, betSeen: map[string]bool{}}
+		coreSeen = coreSeenT{h: h, reported: map[string]bool{}, resolved: map[string]string{}, betSeen: map[string]bool{}, request: map[string]sdkmath.Int{}}
 	}
 }
 
@@ -106,11 +108,15 @@ func coreMonitors(out *Out, h int, e *Env, ix *coreIx, d *coreDump, markets []*c
 			}
 			failOnce(out, h, "C03", "recorded_eq_taken", cls, b.UID, fmt.Sprintf("bet %d recorded stake %s, sum of parts %s (odds %s)", uidN(b.UID), b.Amount, sumBet, b.OddsValue))
 		}
-		if sumBet.GT(b.Amount) {
-			failOnce(out, h, "C03", "taken_le_requested", "wager", b.UID, fmt.Sprintf("bet %d stake taken %s exceeds requested %s", uidN(b.UID), sumBet, b.Amount))
+		req, okReq := coreSeen.request[b.UID]
+		if !okReq {
+			continue
+		}
+		if sumBet.GT(req) {
+			failOnce(out, h, "C03", "taken_le_requested", "carry-accumulation", b.UID, fmt.Sprintf("bet %d stake taken %s exceeds requested stake %s", uidN(b.UID), sumBet, req))
 		}
 		if ov, err := sdkmath.LegacyNewDecFromStr(b.OddsValue); err == nil {
-			want := ov.MulInt(b.Amount).Sub(sdkmath.LegacyNewDecFromInt(b.Amount)).TruncateInt()
+			want := ov.MulInt(req).Sub(sdkmath.LegacyNewDecFromInt(req)).TruncateInt()
 			if !want.Equal(sumProfit) {
 				failOnce(out, h, "C03", "profit_exact", "wager", b.UID, fmt.Sprintf("bet %d promised profit %s, expected floor(stake*(odds-1)) = %s", uidN(b.UID), sumProfit, want))
 			}
@@ -139,6 +145,7 @@ func coreMonitors(out *Out, h int, e *Env, ix *coreIx, d *coreDump, markets []*c
 			for _, o := range outcomes {
 				lhs := p.Liquidity.Add(p.ActualProfit)
 				rhs := zero
+				negStake := false
 				for _, b := range d.bets {
 					if b.MarketUID != bk.UID || !openBet(b) {
 						continue
@@ -151,11 +158,18 @@ func coreMonitors(out *Out, h int, e *Env, ix *coreIx, d *coreDump, markets []*c
 							rhs = rhs.Add(f.PayoutProfit)
 						} else {
 							lhs = lhs.Add(f.BetAmount)
+							if f.BetAmount.IsNegative() {
+								negStake = true
+							}
 						}
 					}
 				}
 				if lhs.LT(rhs) {
-					failOnce(out, h, "C02", "collateral", "over-exposed-participation", fmt.Sprintf("%s/%d", bk.UID, p.Index),
+					cls := "over-exposed-participation"
+					if negStake {
+						cls = "negative-stake-on-other-outcome"
+					}
+					failOnce(out, h, "C02", "collateral", cls, fmt.Sprintf("%s/%d", bk.UID, p.Index),
 						fmt.Sprintf("market %d participation %d outcome %d: liquidity+profit+other stakes = %s < promised winnings %s", uidN(bk.UID), p.Index, uidN(o), lhs, rhs))
 				}
 			}
@@ -329,4 +343,306 @@ func minInt(a, b int) int {
 		return a
 	}
 	return b
+}
+
+// endBlockMonitors compares the balance changes of one end-block with what the settled bets and paid
+// participations entitle their owners to (C03 settlement amounts, C04 participation payout and fee routing,
+// "exactly once": anything already settled must not be paid again).
+func endBlockMonitors(out *Out, h int, e *Env, ix *coreIx, pre, post *coreDump, preBal, postBal map[string]sdkmath.Int) {
+	coreReset(h)
+	zero := sdkmath.ZeroInt()
+	expect := map[string]sdkmath.Int{}
+	credit := func(addr string, v sdkmath.Int) {
+		if cur, ok := expect[addr]; ok {
+			expect[addr] = cur.Add(v)
+		} else {
+			expect[addr] = v
+		}
+	}
+	mById := map[string]markettypes.Market{}
+	for _, m := range post.markets {
+		mById[m.UID] = m
+	}
+	preBet := map[string]bettypes.Bet{}
+	for _, b := range pre.bets {
+		preBet[b.UID] = b
+	}
+	nBets, nParts := 0, 0
+	for _, b := range post.bets {
+		pb := preBet[b.UID]
+		if pb.Status == bettypes.Bet_STATUS_SETTLED {
+			if b.Status != bettypes.Bet_STATUS_SETTLED || b.Result != pb.Result {
+				failOnce(out, h, "C03", "settle_once", "status-regressed", b.UID, fmt.Sprintf("bet %d was settled (%v) and is now %v/%v", uidN(b.UID), pb.Result, b.Status, b.Result))
+			}
+			continue
+		}
+		if b.Status != bettypes.Bet_STATUS_SETTLED {
+			continue
+		}
+		nBets++
+		m := mById[b.MarketUID]
+		sumBet, sumProfit := zero, zero
+		for _, f := range b.BetFulfillment {
+			sumBet = sumBet.Add(f.BetAmount)
+			sumProfit = sumProfit.Add(f.PayoutProfit)
+		}
+		switch m.Status {
+		case markettypes.MarketStatus_MARKET_STATUS_RESULT_DECLARED:
+			won := false
+			for _, w := range m.WinnerOddsUIDs {
+				if w == b.OddsUID {
+					won = true
+				}
+			}
+			if won {
+				credit(b.Creator, sumBet.Add(sumProfit))
+			}
+			credit(m.Creator, b.Fee)
+		default:
+			credit(b.Creator, sumBet.Add(b.Fee))
+		}
+	}
+	prePart := map[string]obtypes.OrderBookParticipation{}
+	for _, p := range pre.parts {
+		prePart[fmt.Sprintf("%s/%d", p.OrderBookUID, p.Index)] = p
+	}
+	for _, p := range post.parts {
+		pp := prePart[fmt.Sprintf("%s/%d", p.OrderBookUID, p.Index)]
+		if pp.IsSettled {
+			if !p.IsSettled {
+				failOnce(out, h, "C04", "participation_settle_once", "status-regressed", fmt.Sprintf("%s/%d", p.OrderBookUID, p.Index), "participation was settled and is not any more")
+			}
+			continue
+		}
+		if !p.IsSettled {
+			continue
+		}
+		nParts++
+		m := mById[p.OrderBookUID]
+		due := pp.Liquidity
+		stake := false
+		if m.Status == markettypes.MarketStatus_MARKET_STATUS_RESULT_DECLARED {
+			for _, b := range post.bets {
+				if b.MarketUID != p.OrderBookUID {
+					continue
+				}
+				won := false
+				for _, w := range m.WinnerOddsUIDs {
+					if w == b.OddsUID {
+						won = true
+					}
+				}
+				for _, f := range b.BetFulfillment {
+					if f.ParticipationIndex != p.Index {
+						continue
+					}
+					stake = true
+					if won {
+						due = due.Sub(f.PayoutProfit)
+					} else {
+						due = due.Add(f.BetAmount)
+					}
+				}
+			}
+			// all bets of the market must be settled before its participations are paid
+			for _, b := range post.bets {
+				if b.MarketUID == p.OrderBookUID && b.Status != bettypes.Bet_STATUS_SETTLED {
+					failOnce(out, h, "C04", "paid_after_bets", "ordering", fmt.Sprintf("%s/%d", p.OrderBookUID, p.Index), fmt.Sprintf("participation %d of market %d paid while bet %d is unsettled", p.Index, uidN(p.OrderBookUID), uidN(b.UID)))
+				}
+			}
+		} else {
+			stake = false
+		}
+		credit(p.ParticipantAddress, due)
+		feeToDepositor := m.Status != markettypes.MarketStatus_MARKET_STATUS_RESULT_DECLARED || !stake
+		if feeToDepositor {
+			credit(p.ParticipantAddress, p.Fee)
+		} else {
+			credit(m.Creator, p.Fee)
+		}
+		if due.IsNegative() {
+			failOnce(out, h, "C02", "returned_nonneg", "negative-return", fmt.Sprintf("%s/%d", p.OrderBookUID, p.Index), fmt.Sprintf("participation %d of market %d is owed %s", p.Index, uidN(p.OrderBookUID), due))
+		}
+	}
+	out.Count(fmt.Sprintf("eb.settled.bets.%d", minInt(nBets, 4)))
+	out.Count(fmt.Sprintf("eb.settled.parts.%d", minInt(nParts, 4)))
+	for _, a := range e.Accts {
+		k := a.String()
+		want, ok := expect[k]
+		if !ok {
+			want = zero
+		}
+		got := postBal[k].Sub(preBal[k])
+		if !got.Equal(want) {
+			prop, mon := "C03", "settlement_amounts"
+			if nParts > 0 {
+				prop, mon = "C04", "payout_amounts"
+			}
+			failOnce(out, h, prop, mon, "endblock-payout-mismatch", k, fmt.Sprintf("account %d received %s in this end-block, entitled to %s (%d bets, %d participations settled)", ix.A(k), got, want, nBets, nParts))
+		}
+	}
+}
+
+func userBalances(e *Env) map[string]sdkmath.Int {
+	m := map[string]sdkmath.Int{}
+	for _, a := range e.Accts {
+		m[a.String()] = e.Bal(a)
+	}
+	return m
+}
+
+// grantLimit returns the live (unexpired) house grant limit granter→grantee of the given kind (0 deposit, 1 withdraw).
+func grantLimit(e *Env, granter, grantee int, kind int) (sdkmath.Int, bool) {
+	url := "/sgenetwork.sge.house.MsgDeposit"
+	if kind == 1 {
+		url = "/sgenetwork.sge.house.MsgWithdraw"
+	}
+	a, _ := e.App.AuthzKeeper.GetAuthorization(e.Ctx, e.Accts[grantee], e.Accts[granter], url)
+	if a == nil {
+		return sdkmath.ZeroInt(), false
+	}
+	switch v := a.(type) {
+	case *housetypes.DepositAuthorization:
+		return v.SpendLimit, true
+	case *housetypes.WithdrawAuthorization:
+		return v.WithdrawLimit, true
+	}
+	return sdkmath.ZeroInt(), false
+}
+
+type housePre struct {
+	bal      map[string]sdkmath.Int
+	pool     sdkmath.Int
+	hfee     sdkmath.Int
+	limit    sdkmath.Int
+	hasGrant bool
+	part     obtypes.OrderBookParticipation
+	hasPart  bool
+}
+
+func captureHouse(e *Env, granter, grantee, kind int, market string, idx uint64) housePre {
+	p := housePre{bal: userBalances(e)}
+	p.pool = e.ModBal(obtypes.OrderBookLiquidityFunder{}.GetModuleAcc())
+	p.hfee = e.ModBal(housetypes.HouseFeeCollectorFunder{}.GetModuleAcc())
+	if granter >= 0 && granter < NAcct && grantee >= 0 && grantee < NAcct {
+		p.limit, p.hasGrant = grantLimit(e, granter, grantee, kind)
+	}
+	p.part, p.hasPart = e.App.OrderbookKeeper.GetOrderBookParticipation(e.Ctx, market, idx)
+	return p
+}
+
+// withdrawMonitor: C09 for a successful MsgWithdraw signed by `creator` with payload depositor `pd` (0 = none).
+func withdrawMonitor(out *Out, h int, e *Env, ix *coreIx, pre housePre, creator, pd int, market string, idx uint64) {
+	coreReset(h)
+	post := userBalances(e)
+	poolAfter := e.ModBal(obtypes.OrderBookLiquidityFunder{}.GetModuleAcc())
+	w := pre.pool.Sub(poolAfter)
+	key := fmt.Sprintf("%s/%d", market, idx)
+	if !pre.hasPart {
+		failOnce(out, h, "C09", "withdraw_existing", "withdraw", key, "withdrawal succeeded on a participation that does not exist")
+		return
+	}
+	depositor := ix.A(pre.part.ParticipantAddress)
+	for i, a := range e.Accts {
+		d := post[a.String()].Sub(pre.bal[a.String()])
+		if i == depositor {
+			if !d.Equal(w) {
+				failOnce(out, h, "C09", "withdraw_to_depositor", "withdraw", key, fmt.Sprintf("pool released %s, depositor %d received %s", w, depositor, d))
+			}
+		} else if !d.IsZero() {
+			failOnce(out, h, "C09", "withdraw_to_depositor", "withdraw-other-account", key, fmt.Sprintf("account %d changed by %s on a withdrawal of depositor %d", i, d, depositor))
+		}
+	}
+	if !w.IsPositive() {
+		failOnce(out, h, "C09", "withdraw_positive", "withdraw", key, fmt.Sprintf("withdrawal released %s", w))
+	}
+	maxLoss := pre.part.CurrentRoundMaxLoss
+	if maxLoss.IsNil() || maxLoss.IsNegative() {
+		maxLoss = sdkmath.ZeroInt()
+	}
+	if w.GT(pre.part.CurrentRoundLiquidity.Sub(maxLoss)) {
+		failOnce(out, h, "C09", "withdraw_bound", "withdraw", key, fmt.Sprintf("withdrew %s with current-round liquidity %s and worst-case loss %s", w, pre.part.CurrentRoundLiquidity, maxLoss))
+	}
+	if pre.part.IsSettled {
+		failOnce(out, h, "C09", "withdraw_unsettled_only", "withdraw", key, "withdrawal from a settled participation")
+	}
+	// authorisation
+	if pd == 0 {
+		if creator != depositor {
+			failOnce(out, h, "C09", "withdraw_auth", "signer-not-depositor", key, fmt.Sprintf("signer %d withdrew liquidity of depositor %d without delegation", creator, depositor))
+		}
+	} else {
+		if pd != depositor {
+			failOnce(out, h, "C09", "withdraw_auth", "payload-depositor-mismatch", key, fmt.Sprintf("payload names depositor %d, participation belongs to %d", pd, depositor))
+		}
+		if !pre.hasGrant {
+			failOnce(out, h, "C09", "withdraw_auth", "no-grant", key, fmt.Sprintf("signer %d withdrew on behalf of %d without a live grant", creator, pd))
+		} else {
+			if w.GT(pre.limit) {
+				failOnce(out, h, "C09", "grant_bound", "withdraw", key, fmt.Sprintf("withdrew %s with grant limit %s", w, pre.limit))
+			}
+			after, has := grantLimit(e, pd, creator, 1)
+			if !has {
+				after = sdkmath.ZeroInt()
+			}
+			if !pre.limit.Sub(w).Equal(after) {
+				failOnce(out, h, "C09", "grant_consumed_exactly", "withdraw", key, fmt.Sprintf("grant %s -> %s for a withdrawal of %s", pre.limit, after, w))
+			}
+		}
+	}
+	// count
+	dep, found := e.App.HouseKeeper.GetDeposit(e.Ctx, pre.part.ParticipantAddress, market, idx)
+	if found && dep.WithdrawalCount > e.App.HouseKeeper.GetMaxWithdrawalCount(e.Ctx) {
+		failOnce(out, h, "C09", "withdraw_count", "withdraw", key, fmt.Sprintf("withdrawal count %d exceeds the maximum", dep.WithdrawalCount))
+	}
+	out.Count("mon.C09.withdraw")
+}
+
+// depositMonitor: C09 for a successful MsgDeposit signed by `creator` with payload depositor `pd`.
+func depositMonitor(out *Out, h int, e *Env, ix *coreIx, pre housePre, creator, pd int, amount sdkmath.Int, market string) {
+	coreReset(h)
+	post := userBalances(e)
+	who := creator
+	if pd != 0 && pd != creator {
+		who = pd
+	}
+	key := fmt.Sprintf("%s/%d", market, creator)
+	in := e.ModBal(obtypes.OrderBookLiquidityFunder{}.GetModuleAcc()).Sub(pre.pool).Add(e.ModBal(housetypes.HouseFeeCollectorFunder{}.GetModuleAcc()).Sub(pre.hfee))
+	if !in.Equal(amount) {
+		failOnce(out, h, "C09", "deposit_custody", "deposit", key, fmt.Sprintf("deposit of %s put %s into custody", amount, in))
+	}
+	for i, a := range e.Accts {
+		d := post[a.String()].Sub(pre.bal[a.String()])
+		if i == who {
+			if !d.Neg().Equal(amount) {
+				failOnce(out, h, "C09", "deposit_debits_depositor", "deposit", key, fmt.Sprintf("depositor %d changed by %s for a deposit of %s", who, d, amount))
+			}
+		} else if !d.IsZero() {
+			failOnce(out, h, "C09", "deposit_debits_depositor", "deposit-other-account", key, fmt.Sprintf("account %d changed by %s on a deposit of %d", i, d, who))
+		}
+	}
+	if who != creator {
+		if !pre.hasGrant {
+			failOnce(out, h, "C09", "deposit_auth", "no-grant", key, fmt.Sprintf("signer %d deposited on behalf of %d without a live grant", creator, who))
+		} else {
+			if amount.GT(pre.limit) {
+				failOnce(out, h, "C09", "grant_bound", "deposit", key, fmt.Sprintf("deposited %s with grant limit %s", amount, pre.limit))
+			}
+			after, has := grantLimit(e, who, creator, 0)
+			if !has {
+				after = sdkmath.ZeroInt()
+			}
+			if !pre.limit.Sub(amount).Equal(after) {
+				failOnce(out, h, "C09", "grant_consumed_exactly", "deposit", key, fmt.Sprintf("grant %s -> %s for a deposit of %s", pre.limit, after, amount))
+			}
+		}
+		out.Count("mon.C09.deposit.delegated")
+	}
+	// the new participation belongs to the depositor
+	book, _ := e.App.OrderbookKeeper.GetOrderBook(e.Ctx, market)
+	p, found := e.App.OrderbookKeeper.GetOrderBookParticipation(e.Ctx, market, book.ParticipationCount)
+	if !found || ix.A(p.ParticipantAddress) != who {
+		failOnce(out, h, "C09", "deposit_owner", "deposit", key, fmt.Sprintf("participation created for %s, depositor is %d", p.ParticipantAddress, who))
+	}
+	out.Count("mon.C09.deposit")
 }
